@@ -17,21 +17,22 @@ def bools : List Bool := [true, false]
 
 def mkUnet (f : Nat) (r : Rate) (ms stem bos os cpb : Nat) (mid : Bool) : Cfg :=
   { fam := .unet, variant := 0, filters := f, rate := r, maxStride := ms, bos := bos, stem := stem,
-    cpb := cpb, middle := mid, upInterp := false, inCh := 1, heads := [⟨os, 0⟩] }
+    cpb := cpb, middle := mid, upInterp := false, inCh := 1, heads := [⟨os, 0⟩],
+    fixMid := true, fixWrap := true }
 
 def mkWrap (fam : Family) (v sps bos os cpb : Nat) : Cfg :=
   { fam := fam, variant := v, filters := 0, rate := ⟨2, 1⟩, maxStride := sps * 8, bos := bos, stem := sps,
-    cpb := cpb, middle := true, upInterp := false, inCh := 1, heads := [⟨os, 0⟩] }
+    cpb := cpb, middle := true, upInterp := false, inCh := 1, heads := [⟨os, 0⟩],
+    fixMid := true, fixWrap := true }
 
 def tableUnet (f : Nat) (r : Rate) : Bool :=
   [8, 16, 32].all fun ms => [0, 2, 4].all fun stem => strides6.all fun bos => strides6.all fun os =>
     !(decide (bos ≤ os) && decide (2 * os ≤ ms)) ||
-      ([2, 3].all fun cpb => bools.all fun mid =>
-        !(mid || r == ⟨1, 1⟩) || wellFormed (mkUnet f r ms stem bos os cpb mid))
+      ([2, 3].all fun cpb => bools.all fun mid => wellFormed (mkUnet f r ms stem bos os cpb mid))
 
 def tableWrap (fam : Family) (v : Nat) : Bool :=
   [2, 4].all fun sps => strides6.all fun bos => strides6.all fun os =>
-    !(decide (bos ≤ os) && decide (2 * os ≤ sps * 8) && decide (bos ≤ sps)) ||
+    !(decide (bos ≤ os) && decide (2 * os ≤ sps * 8)) ||
       ([1, 2, 3].all fun cpb => wellFormed (mkWrap fam v sps bos os cpb))
 
 /-- Documented validity: `backbone output_stride ≤ head stride ≤ max_stride / 2` for every head
@@ -40,20 +41,21 @@ def tableWrap (fam : Family) (v : Nat) : Bool :=
 def docValid (c : Cfg) : Bool :=
   !c.heads.isEmpty && c.heads.all (fun h => decide (c.bos ≤ h.os) && decide (2 * h.os ≤ c.realMaxStride))
 
-/-- The extra hypotheses under which the contract is true of the code.  The excluded regions are
-    the known findings F-C14-convs-per-block, F-C14-middle-block, F-C14-wrapper-output-stride;
-    `filters_rate = 2` for the wrappers is a documented restriction (their torchvision encoders
-    double the channels per stage). -/
+/-- The extra hypotheses under which the contract is true of the code **as it is now** (HEAD of
+    /repo: both C14 fixes applied, `fixMid = fixWrap = true`).  UNet: `convs_per_block ≥ 2` (the excluded
+    region is the known finding F-C14-convs-per-block); `middle_block = False` is valid with any rate
+    since 24db0b1.  ConvNeXt / Swin-T: `filters_rate = 2` (documented restriction: their torchvision
+    encoders double the channels per stage); `output_stride > stem_patch_stride` is valid since e4cd03e. -/
 def supported (c : Cfg) : Bool :=
   match c.fam with
-  | .unet => decide (2 ≤ c.cpb) && (c.middle || c.rate == ⟨1, 1⟩)
-  | _ => c.rate == ⟨2, 1⟩ && decide (c.bos ≤ c.stem)
+  | .unet => decide (2 ≤ c.cpb)
+  | _ => c.rate == ⟨2, 1⟩
 
-/-- the finite grid named by the property, on the pinned tree (no fix applied) (canonical representation: `variant = 0` for UNet,
+/-- the finite grid named by the property, on the tree as it is now (both fixes applied) (canonical representation: `variant = 0` for UNet,
     `filters = 0`, `middle_block = True`, `max_stride = 8·stem_patch_stride` for the wrappers, which
     ignore those fields) -/
 def inGrid (c : Cfg) : Bool :=
-  c.inCh == 1 && !c.fixMid && !c.fixWrap && c.heads.all (fun h => strides6.contains h.os) && strides6.contains c.bos
+  c.inCh == 1 && c.fixMid && c.fixWrap && c.heads.all (fun h => strides6.contains h.os) && strides6.contains c.bos
     && [1, 2, 3].contains c.cpb && rates3.contains c.rate &&
   match c.fam with
   | .unet => c.variant == 0 && [8, 16, 24, 32, 64].contains c.filters && [8, 16, 32].contains c.maxStride
